@@ -14,14 +14,15 @@
                                            where: g_a = where(m, g, 0), g_b = where(m, 0, g))
                Prog("interior-guarded") : the same with the secants of the unselected branch replaced by 1
                                           before dividing (candidate repair)
-               Prog("end")              : _endpoint_slope + _limit_endpoint, forward and reverse
+               Prog("end")              : _endpoint_slope + _limit_endpoint (sign tests by products), forward and reverse
+               Prog("end-standard")     : the same with the standard method's sign comparisons
    REQUIREMENT GradFinite : with finite inputs and a finite upstream gradient, every gradient that
                reaches an input (the secants, hence the samples y) is finite;
                ForwardFinite : the selected output is finite.
    Assumption of the abstraction: finite non-zero magnitudes are moderate (products / quotients of
    finite non-zero values neither overflow nor underflow). *)
 EXTENDS Integers, Sequences, FiniteSets, TLC
-CONSTANTS Which,     \* "interior-code" | "interior-guarded" | "end"
+CONSTANTS Which,     \* "interior-code" | "interior-guarded" | "end" | "end-standard"
           LogCases
 VARIABLES env, ip, inputs
 vars == <<env, ip, inputs>>
@@ -67,6 +68,7 @@ GtA(a, b) ==                                                                    
    ELSE IF a = b THEN {"F"}
    ELSE IF a = "PINF" \/ b = "NINF" THEN {"T"} ELSE IF a = "NINF" \/ b = "PINF" THEN {"F"}
    ELSE {IF SignOf(a) > SignOf(b) THEN "T" ELSE "F"}
+SgnNeA(a, b) == {IF a = "NAN" \/ b = "NAN" \/ SignOf(a) # SignOf(b) THEN "T" ELSE "F"}         \* torch.sign(a) != torch.sign(b)
 AndA(a, b) == {IF a = "T" /\ b = "T" THEN "T" ELSE "F"}
 WhereA(m, a, b) == {IF m = "T" THEN a ELSE b}
 
@@ -74,7 +76,7 @@ Apply(op, a, b, c) ==
    CASE op = "neg" -> NegA(a)   [] op = "abs" -> AbsA(a)
      [] op = "mul" -> MulA(a, b) [] op = "add" -> AddA(a, b) [] op = "div" -> DivA(a, b)
      [] op = "gt0" -> Gt0A(a)   [] op = "lt0" -> Lt0A(a)   [] op = "gt" -> GtA(a, b)
-     [] op = "and" -> AndA(a, b) [] op = "where" -> WhereA(a, b, c)
+     [] op = "and" -> AndA(a, b) [] op = "sgnne" -> SgnNeA(a, b) [] op = "where" -> WhereA(a, b, c)
 
 \* ---- the programs: <<destination, operation, operand, operand, operand>>  ("_" = unused)
 \* forward of _weighted_harmonic_mean(delta_l, delta_r, h_l, h_r) and of the interior part of _pchip_derivatives
@@ -133,6 +135,17 @@ FwdEnd == <<
    <<"m2b", "gt", "c1", "c3", "_">>, <<"m2", "and", "m2a", "m2b", "_">>,
    <<"e1", "mul", "three", "dl", "_">>,
    <<"out", "where", "m2", "e1", "d1">> >>
+\* the same with the sign tests of the standard method: sign(d_end) # sign(s_l) ; sign(s_l) # sign(s_r)
+FwdEndStd == <<
+   <<"a1", "mul", "wl", "dl", "_">>, <<"a2", "mul", "wr", "dr", "_">>, <<"a3", "neg", "a2", "_", "_">>,
+   <<"a4", "add", "a1", "a3", "_">>, <<"d0", "div", "a4", "W", "_">>,
+   <<"m1", "sgnne", "d0", "dl", "_">>,
+   <<"d1", "where", "m1", "zero", "d0">>,
+   <<"m2a", "sgnne", "dl", "dr", "_">>,
+   <<"c1", "abs", "d1", "_", "_">>, <<"c2", "abs", "dl", "_", "_">>, <<"c3", "mul", "three", "c2", "_">>,
+   <<"m2b", "gt", "c1", "c3", "_">>, <<"m2", "and", "m2a", "m2b", "_">>,
+   <<"e1", "mul", "three", "dl", "_">>,
+   <<"out", "where", "m2", "e1", "d1">> >>
 BwdEnd == <<
    <<"g_e1", "where", "m2", "g", "zero">>, <<"g_d1", "where", "m2", "zero", "g">>,
    <<"g_dl_a", "mul", "g_e1", "three", "_">>,
@@ -144,9 +157,11 @@ BwdEnd == <<
 
 Prog == IF Which = "interior-code" THEN FwdInteriorCode \o BwdInteriorCode
         ELSE IF Which = "interior-guarded" THEN FwdInteriorGuarded \o BwdInteriorGuarded
-        ELSE FwdEnd \o BwdEnd
+        ELSE IF Which = "end" THEN FwdEnd \o BwdEnd
+        ELSE FwdEndStd \o BwdEnd
 FwdLen == IF Which = "interior-code" THEN Len(FwdInteriorCode)
-          ELSE IF Which = "interior-guarded" THEN Len(FwdInteriorGuarded) ELSE Len(FwdEnd)
+          ELSE IF Which = "interior-guarded" THEN Len(FwdInteriorGuarded)
+          ELSE IF Which = "end" THEN Len(FwdEnd) ELSE Len(FwdEndStd)
 
 Names == {"dl", "dr", "g", "wl", "wr", "W", "zero", "one", "three", "_"} \cup {Prog[k][1] : k \in 1..Len(Prog)}
 
@@ -171,7 +186,7 @@ Done == ip = Len(Prog) + 1
 ForwardFinite == ip > FwdLen => env["out"] \in Fin
 GradFinite == Done => (env["g_dl"] \in Fin /\ env["g_dr"] \in Fin)
 \* gradients with respect to the widths (knot positions); not an input the property quantifies over -- reported only
-GradFiniteWidths == (Done /\ Which # "end") => (env["g_wl"] \in Fin /\ env["g_wr"] \in Fin /\ env["g_W"] \in Fin)
+GradFiniteWidths == (Done /\ Which \in {"interior-code", "interior-guarded"}) => (env["g_wl"] \in Fin /\ env["g_wr"] \in Fin /\ env["g_W"] \in Fin)
 
 LogStep == (LogCases /\ ip' = Len(Prog) + 1) =>
               PrintT(<<"G", Which, inputs, env'["out"], env'["g_dl"], env'["g_dr"]>>)
